@@ -1,3 +1,5 @@
+//go:build verif
+
 package checks
 
 // C15 — protocol piece: real ProtocolManager, fake peers over p2p.MsgPipe.
